@@ -463,6 +463,11 @@ func runC03Defer(c *Ctx) {
 					}
 				})
 				if len(fields) == 0 {
+					// a value that a key case parses into a local and that no node ever receives: unless it is handed on
+					// in another way (argument, result, element), the key is parsed for nothing
+					if call := parsedInto(ph); call != nil && !handedOn(ph) {
+						c.bad(fmt.Sprintf("%s|`%s` parsed but never handed to the node", FuncName(fn), ph.Comment), call.Pos(), "the value of the key is parsed into a local variable that is stored into no field of the node built from these keys: the value (and any ${{ }} in it) is lost")
+					}
 					continue
 				}
 				// the other key order: when the value is parsed and a node may already exist, it is stored at once
@@ -537,6 +542,76 @@ func runC03Defer(c *Ctx) {
 }
 
 var _ = sort.Strings
+
+// phiGroup: the phi and everything it merges, through nested phis of the same variable.
+func phiGroup(ph *ssa.Phi) map[ssa.Value]bool {
+	group := map[ssa.Value]bool{}
+	var add func(v ssa.Value)
+	add = func(v ssa.Value) {
+		if group[v] {
+			return
+		}
+		group[v] = true
+		if p2, ok := v.(*ssa.Phi); ok {
+			for _, e := range p2.Edges {
+				add(e)
+			}
+		}
+	}
+	add(ph)
+	return group
+}
+
+// parsedInto: one of the values merged by the loop-carried variable is the result of a parse method of the parser.
+func parsedInto(ph *ssa.Phi) *ssa.Call {
+	var found *ssa.Call
+	for v := range phiGroup(ph) {
+		if call, ok := v.(*ssa.Call); ok {
+			if g := staticCallee(&call.Call); g != nil && g.Signature.Recv() != nil && typeStr(g.Signature.Recv().Type()) == "*parser" {
+				if found == nil || call.Pos() < found.Pos() {
+					found = call
+				}
+			}
+		}
+	}
+	return found
+}
+
+// handedOn: the variable is used for more than being read: stored, passed, returned, converted or merged into another
+// variable.
+func handedOn(ph *ssa.Phi) bool {
+	group := phiGroup(ph)
+	for v := range group {
+		if v.Referrers() == nil {
+			continue
+		}
+		for _, ref := range *v.Referrers() {
+			switch r := ref.(type) {
+			case *ssa.Store:
+				if r.Val == v {
+					return true
+				}
+			case *ssa.Phi:
+				if !group[r] {
+					return true
+				}
+			case *ssa.MapUpdate:
+				if r.Value == v || r.Key == v {
+					return true
+				}
+			case ssa.CallInstruction:
+				for _, a := range r.Common().Args {
+					if a == v {
+						return true
+					}
+				}
+			case *ssa.Return, *ssa.MakeInterface, *ssa.ChangeInterface, *ssa.ChangeType, *ssa.Convert, *ssa.Send, *ssa.MakeClosure:
+				return true
+			}
+		}
+	}
+	return false
+}
 
 // exprFieldCallers: at every call site of fn, is argument idx a load of a field whose name says it holds a whole-value
 // expression (directly, or through a wrapper that forwards its own parameter)?
